@@ -19,17 +19,17 @@ import (
 // evaluated first, once). A call site that passes any other child — a later declarator of a
 // `let`, the update expression of a `for`, the test of a `while` — reorders side effects.
 var c05FirstEvaluated = map[string]string{
-	"SExpr.Value":                      "ExpressionStatement: the expression",
-	"SReturn.ValueOrNil":               "return: the operand",
-	"SThrow.Value":                     "throw: the operand",
-	"SIf.Test":                         "if: the test is evaluated first, once",
-	"SSwitch.Test":                     "switch: the discriminant is evaluated first, once",
-	"SWith.Value":                      "with: the object is evaluated first, once",
+	"SExpr.Value":                       "ExpressionStatement: the expression",
+	"SReturn.ValueOrNil":                "return: the operand",
+	"SThrow.Value":                      "throw: the operand",
+	"SIf.Test":                          "if: the test is evaluated first, once",
+	"SSwitch.Test":                      "switch: the discriminant is evaluated first, once",
+	"SWith.Value":                       "with: the object is evaluated first, once",
 	"SFor.InitOrNil.Data.(SExpr).Value": "for(init;;): the initialiser expression is evaluated first, once",
 	"SFor.InitOrNil.Data.(SLocal).Decls[0].ValueOrNil": "for(let x = init;;): the first declarator's initialiser is evaluated first, once",
-	"SLocal.Decls[0].ValueOrNil":       "let/const/var: the first declarator's initialiser (later declarators run after earlier ones)",
-	"SForIn.Value":                     "for-in: the object is evaluated before the loop, once",
-	"SForOf.Value":                     "for-of: the iterable is evaluated before the loop, once",
+	"SLocal.Decls[0].ValueOrNil":                       "let/const/var: the first declarator's initialiser (later declarators run after earlier ones)",
+	"SForIn.Value":                                     "for-in: the object is evaluated before the loop, once",
+	"SForOf.Value":                                     "for-of: the iterable is evaluated before the loop, once",
 }
 
 func c05StmtChildPath(v ssa.Value) string {
